@@ -20,6 +20,8 @@ IbanOutcome(e) ==
         valid == Valid(Table, t)
         D == Defects(Table, t)
     IN  IF e.out.k = "exc" /\ ~e.out.lib THEN "non-library-exception"
+        \* the object never changes: asked again (validate / is_valid on the same object) it answers the same
+        ELSE IF "again" \in DOMAIN e.out /\ ~e.out.again THEN "object-answers-differently-when-asked-again"
         ELSE IF ~e.judge \/ Unsettled(Table, t) THEN "ok"
         ELSE IF e.out.k = "ok"
              THEN IF e.op = "iban.is_valid"
@@ -49,6 +51,7 @@ BicOutcome(e) ==
         valid == BicValid(t, strict)
         D == BicDefects(t, strict)
     IN  IF e.out.k = "exc" /\ ~e.out.lib THEN "non-library-exception"
+        ELSE IF "again" \in DOMAIN e.out /\ ~e.out.again THEN "object-answers-differently-when-asked-again"
         ELSE IF ~e.judge THEN "ok"
         ELSE IF e.out.k = "ok"
              THEN IF e.op = "bic.is_valid"
